@@ -43,8 +43,26 @@ Proof.
   destruct x; simpl; intros H; try done; unfold count_out in *; simpl; auto.
 Qed.
 
+Lemma count_out_cons x o l :
+  count_out x (o :: l) = ((if bool_decide (o = x) then 1 else 0) + count_out x l)%nat.
+Proof. unfold count_out. simpl. destruct (bool_decide (o = x)); done. Qed.
+
+Lemma prefix_ok_snoc l : forall acc sn o n,
+  prefix_ok acc (l ++ [o]) (sn ++ [n]) = prefix_ok acc l sn && bool_decide (n <= acc + count_out DOk l)%nat.
+Proof.
+  induction l as [|a l IH]; intros acc sn o n.
+  - destruct sn as [|x sn]; simpl.
+    + unfold count_out. simpl. rewrite Nat.add_0_r. by rewrite andb_true_r.
+    + destruct sn; simpl; by rewrite ?andb_false_r.
+  - destruct sn as [|x sn]; simpl.
+    + destruct l; simpl; by rewrite andb_false_r.
+    + rewrite IH, count_out_cons. rewrite <- andb_assoc. do 2 f_equal.
+      apply bool_decide_ext. lia.
+Qed.
+
 (* ---------- the invariant ---------- *)
 Notation cok s := (count_out DOk (log s)).
+Notation cerr s := (count_out DErr (log s) + count_out DErrApplied (log s))%nat.
 
 Record Inv (c : command) (b : bool) (s : sys) : Prop := {
   i_present : present s = true -> holder s = None /\ cok s = 0%nat;
@@ -54,11 +72,12 @@ Record Inv (c : command) (b : bool) (s : sys) : Prop := {
   i_oracle : oracle_ok b (log s) = true;
   i_final : final_present b (log s) = present s;
   i_reqs : Forall (fun r => r = req_of c) (enq s);
-  i_retries : retries s = (count_out DErr (log s) + count_out DErrApplied (log s))%nat
+  i_retries : (retries s + drops s = cerr s)%nat;
+  i_seen : prefix_ok 0 (log s) (seen s) = true
 }.
 
-Lemma wget_wset s w x w' p e h l r :
-  wget (mkSys p (wset s w x) e h l r) w' = if decide (w' = w) then x else wget s w'.
+Lemma wget_wset s w x w' p e h l sn r d :
+  wget (mkSys p (wset s w x) e h l sn r d) w' = if decide (w' = w) then x else wget s w'.
 Proof.
   unfold wget, wset. simpl. destruct (decide (w' = w)) as [->|].
   - by rewrite lookup_insert.
@@ -73,7 +92,30 @@ Qed.
 
 Ltac wcase w' w := rewrite wget_wset; destruct (decide (w' = w)); subst.
 
-Lemma inv_step c b s e : Inv c b s -> Inv c b (cstep c s e).
+(* a Delete call that does not succeed: NotFound, or an error that is retried or dropped *)
+Lemma inv_fail c b s w n x o p' r' d' :
+  Inv c b s -> wget s w = WGot n -> x <> WDeleted -> o <> DOk ->
+  (o = DNotFound -> present s = false) ->
+  p' = (match o with DErr => present s | _ => false end) ->
+  (r' + d' = retries s + drops s + (if bool_decide (o = DNotFound) then 0 else 1))%nat ->
+  Inv c b (mkSys p' (wset s w x) (enq s) (holder s) (log s ++ [o]) (seen s ++ [length (enq s)]) r' d').
+Proof.
+  intros I Ew Hx Ho Hnf -> Hr. destruct I.
+  assert (Hc : count_out DOk (log s ++ [o]) = cok s).
+  { rewrite count_out_snoc. rewrite bool_decide_false by done. lia. }
+  split; simpl; rewrite ?Hc.
+  - destruct o; try done; auto.
+  - intros w'. wcase w' w; [done|auto].
+  - done.
+  - intros H1 H2. destruct (i_pend0 H1 H2) as [w' Hw']. exists w'. wcase w' w; [congruence|done].
+  - rewrite oracle_ok_snoc, i_oracle0, i_final0. destruct o; try done. by rewrite Hnf.
+  - rewrite final_present_snoc, i_final0. by destruct o.
+  - done.
+  - rewrite !count_out_snoc. destruct o; simpl in *; try done; lia.
+  - rewrite prefix_ok_snoc, i_seen0. simpl. apply bool_decide_eq_true. lia.
+Qed.
+
+Lemma inv_step mx c b s e : Inv c b s -> Inv c b (cstep mx c s e).
 Proof.
   intros I. destruct e as [w|w o|w]; simpl.
   - (* deliver *)
@@ -82,28 +124,23 @@ Proof.
     + intros w'. wcase w' w; [done|auto].
     + intros H1 H2. destruct (i_pend0 H1 H2) as [w' Hw']. exists w'. wcase w' w; [congruence|done].
   - (* delete *)
-    destruct (wget s w) eqn:Ew; try done.
-    assert (Hpend : forall p e h l r x, x <> WDeleted -> cok s = 1%nat -> enq s = [] ->
-              exists w', wget (mkSys p (wset s w x) e h l r) w' = WDeleted).
-    { intros p e h l r x Hx H1 H2. destruct I. destruct (i_pend0 H1 H2) as [w' Hw']. exists w'.
-      wcase w' w; [congruence|done]. }
-    assert (Hdel : forall p e h l r x w', x <> WDeleted ->
-              wget (mkSys p (wset s w x) e h l r) w' = WDeleted -> wget s w' = WDeleted).
-    { intros p e h l r x w' Hx. wcase w' w; [done|auto]. }
-    destruct o, (present s) eqn:Ep; try done; destruct I; split; simpl;
-      rewrite ?count_out_snoc, ?oracle_ok_snoc, ?final_present_snoc, ?i_oracle0, ?i_final0; simpl;
-      rewrite ?Nat.add_0_r; try done; try lia.
-    all: try (destruct (i_present0 Ep) as [Hh Hc]).
-    all: try (intros w' Hd; apply Hdel in Hd; [by apply i_deleted0|done]).
-    all: try (intros H1 H2; eapply Hpend; eauto; done).
-    all: try (by rewrite Ep).
-    all: try (intros _; split; [done|lia]).
+    destruct (wget s w) as [|n|] eqn:Ew; try done.
+    destruct o, (present s) eqn:Ep; try done.
     + (* DOk: w becomes the holder *)
-      intros w'. wcase w' w.
-      * intros _. split; [done|]. split; [|lia]. destruct (enq s); [done|]. simpl in *. lia.
-      * intros Hd. destruct (i_deleted0 _ Hd) as (_&_&?). lia.
-    + lia.
-    + intros _ _. exists w. wcase w w; done.
+      destruct I. destruct (i_present0 Ep) as [Hh Hc].
+      split; simpl; rewrite ?count_out_snoc; simpl; try done; try lia.
+      * intros w'. wcase w' w.
+        -- intros _. split; [done|]. split; [|lia]. destruct (enq s); [done|]. simpl in *. lia.
+        -- intros Hd. destruct (i_deleted0 _ Hd) as (_&_&?). lia.
+      * intros _ _. exists w. wcase w w; done.
+      * rewrite oracle_ok_snoc, i_oracle0, i_final0, Ep. done.
+      * by rewrite final_present_snoc.
+      * rewrite prefix_ok_snoc, i_seen0. simpl. apply bool_decide_eq_true. lia.
+    + eapply inv_fail; eauto; try done; simpl; lia.
+    + destruct (budget mx n); eapply inv_fail; eauto; try done; simpl; try lia; by rewrite ?Ep.
+    + destruct (budget mx n); eapply inv_fail; eauto; try done; simpl; try lia; by rewrite ?Ep.
+    + destruct (budget mx n); eapply inv_fail; eauto; try done; simpl; try lia; by rewrite ?Ep.
+    + destruct (budget mx n); eapply inv_fail; eauto; try done; simpl; try lia; by rewrite ?Ep.
   - (* enqueue *)
     destruct (wget s w) eqn:Ew; try done.
     destruct I. destruct (i_deleted0 _ Ew) as (Hh&He&Hc). split; simpl; try done.
@@ -114,24 +151,25 @@ Proof.
     + apply Forall_app. split; [done|]. by constructor.
 Qed.
 
-Lemma inv_run c b evs : Inv c b (crun c b evs).
+Lemma inv_run mx c b evs : Inv c b (crun mx c b evs).
 Proof.
   unfold crun. generalize (inv_init c b). generalize (init b).
   induction evs as [|e evs IH]; intros s I; simpl; [done|]. apply IH. by apply inv_step.
 Qed.
 
-(* ---------- main theorem: at most once, for all interleavings ---------- *)
-Theorem at_most_once c b evs : let s := crun c b evs in
+(* ---------- main theorem: at most once, for all interleavings, retry budgets and drops ---------- *)
+Theorem at_most_once mx c b evs : let s := crun mx c b evs in
   (length (enq s) <= 1)%nat /\                                  (* executed at most once *)
-  (length (enq s) <= count_out DOk (log s) <= 1)%nat /\          (* only after a successful Delete; Delete succeeds at most once *)
+  (length (enq s) <= count_out DOk (log s) <= 1)%nat /\          (* triggered <= deleted <= 1, after EVERY prefix (evs is arbitrary) *)
+  prefix_ok 0 (log s) (seen s) = true /\                          (* ... and at every Delete call *)
   Forall (fun r => r = req_of c) (enq s) /\                      (* naming the command's namespace, target and action *)
   (enq s <> [] -> present s = false) /\                          (* the command is not retained *)
   (b = false -> enq s = []) /\                                   (* a command that is not there is never executed *)
-  retries s = (count_out DErr (log s) + count_out DErrApplied (log s))%nat /\  (* every error asks for a re-delivery *)
+  (retries s + drops s = count_out DErr (log s) + count_out DErrApplied (log s))%nat /\  (* every error is retried or given up *)
   (quiescent s -> length (enq s) = count_out DOk (log s)).        (* a successful Delete is followed by its execution *)
 Proof.
-  intros s. destruct (inv_run c b evs) as [P D O Pd Or F R Rt]. fold s in P, D, O, Pd, Or, F, R, Rt.
-  split; [lia|]. split; [done|]. split; [done|]. split; [|split; [|split; [done|]]].
+  intros s. destruct (inv_run mx c b evs) as [P D O Pd Or F R Rt Sn]. fold s in P, D, O, Pd, Or, F, R, Rt, Sn.
+  split; [lia|]. split; [done|]. split; [done|]. split; [done|]. split; [|split; [|split; [done|]]].
   - intros Hne. destruct (present s) eqn:Ep; [|done]. destruct (P eq_refl) as [_ H0].
     destruct (enq s); [done|]. simpl in *. lia.
   - intros ->. apply oracle_false_no_ok in Or. destruct (enq s); [done|]. simpl in *. lia.
@@ -140,31 +178,39 @@ Proof.
     destruct (Pd H1 eq_refl) as [w Hw]. rewrite Q in Hw. done.
 Qed.
 
-(* an error answer never leads to an execution by that delivery *)
-Theorem error_never_executes c s w o :
-  o = DErr \/ o = DErrApplied ->
-  enq (cstep c s (CDelete w o)) = enq s /\
-  (wget s w = WGot -> wget (cstep c s (CDelete w o)) w = WIdle /\
-                      retries (cstep c s (CDelete w o)) = S (retries s)).
+(* an error answer never leads to an execution by that delivery: it is retried (one more
+   failure on the same object) or, with the budget exhausted, DROPPED — and a dropped
+   command triggers nothing *)
+Theorem error_never_executes mx c s w n o :
+  o = DErr \/ o = DErrApplied -> wget s w = WGot n ->
+  let s' := cstep mx c s (CDelete w o) in
+  enq s' = enq s /\
+  (budget mx n = true -> wget s' w = WGot (S n) /\ retries s' = S (retries s) /\ drops s' = drops s) /\
+  (budget mx n = false -> wget s' w = WIdle /\ drops s' = S (drops s) /\ retries s' = retries s).
 Proof.
-  intros Ho. simpl. destruct (wget s w) eqn:E.
-  - split; [done|]. intros; congruence.
-  - destruct Ho as [-> | ->]; simpl; (split; [done|]); intros _;
-    (split; [rewrite wget_wset; destruct (decide (w = w)); done|done]).
-  - split; [done|]. intros; congruence.
+  intros Ho E. simpl. rewrite E.
+  destruct Ho as [-> | ->]; simpl; destruct (present s); destruct (budget mx n); simpl;
+  (split; [done|]); (split; intros; try done);
+  (split; [rewrite wget_wset; destruct (decide (w = w)); done|done]).
 Qed.
 
 (* the executable law accepts every reachable state of the model *)
-Theorem law_amo_holds c b evs : let s := crun c b evs in
-  law_amo c b (log s) (enq s) (present s) (retries s) false = true.
+Theorem law_amo_holds mx c b evs : let s := crun mx c b evs in
+  law_amo mx c b (log s) (seen s) (enq s) (present s) (retries s) false = true \/ mx = -1 /\ drops s <> 0%nat.
 Proof.
-  intros s. destruct (at_most_once c b evs) as (A1&A2&A3&A4&A5&A6&_). fold s in A1, A2, A3, A4, A5, A6.
-  destruct (inv_run c b evs) as [_ _ _ _ Or F _ _]. fold s in Or, F.
-  unfold law_amo. rewrite Or. simpl.
+  intros s. destruct (at_most_once mx c b evs) as (A1&A2&Sn&A3&A4&A5&A6&_). fold s in A1, A2, Sn, A3, A4, A5, A6.
+  destruct (inv_run mx c b evs) as [_ _ _ _ Or F _ _ _]. fold s in Or, F.
+  destruct (decide (mx = -1 /\ drops s <> 0%nat)) as [?|Hd]; [by right|left].
+  unfold law_amo. rewrite Or, Sn. simpl.
   rewrite (bool_decide_true (length (enq s) <= 1)%nat) by done.
   rewrite (bool_decide_true (length (enq s) <= count_out DOk (log s))%nat) by lia. simpl.
   rewrite (bool_decide_true (present s = _)) by done.
-  rewrite (bool_decide_true (retries s = _)) by done. rewrite !andb_true_r.
+  rewrite (bool_decide_true (retries s <= _)%nat) by lia.
+  assert (X : negb (bool_decide (mx = -1)) || bool_decide (retries s = count_out DErr (log s) + count_out DErrApplied (log s))%nat = true).
+  { destruct (decide (mx = -1)) as [->|Hm]; [|by rewrite (bool_decide_false (mx = -1))].
+    rewrite (bool_decide_true (-1 = -1)) by done. simpl. apply bool_decide_eq_true.
+    destruct (decide (drops s = 0%nat)); [lia|]. exfalso. apply Hd. done. }
+  rewrite X. rewrite !andb_true_r.
   apply andb_true_iff. split; [apply andb_true_iff; split|].
   - apply forallb_forall. intros r Hr. rewrite Forall_forall in A3. apply bool_decide_eq_true.
     apply A3. first [exact Hr | apply (proj2 (elem_of_list_In _ _)); exact Hr].
@@ -172,13 +218,31 @@ Proof.
   - destruct b; [done|]. rewrite A5 by done. done.
 Qed.
 
-(* non-vacuity: two workers race for a present command, an injected error first *)
+(* with unlimited retries nothing is ever dropped *)
+Lemma no_drop_unlimited c b evs : drops (crun (-1) c b evs) = 0%nat.
+Proof.
+  unfold crun. assert (H : drops (init b) = 0%nat) by done. revert H. generalize (init b).
+  induction evs as [|e evs IH]; intros s H; simpl; [done|]. apply IH.
+  destruct e as [w|w o|w]; simpl; destruct (wget s w); try done.
+  destruct o, (present s); simpl; done.
+Qed.
+
+(* non-vacuity: two deliveries race for a present command, an injected error first; and a
+   delivery whose Delete fails 3 times with maxRequeueNum = 2 is dropped without executing,
+   the relisted delivery then deletes and executes once *)
 Definition ex_cmd : command := mkCommand 7 (3, 1) (mkRef 1 3 9 true) [mkRef 1 3 9 true] 1.
 Example ex_race :
-  let s := crun ex_cmd true [CDeliver 0; CDeliver 1; CDelete 0 DErr; CDelete 1 DOk; CDeliver 0;
+  let s := crun (-1) ex_cmd true [CDeliver 0; CDeliver 1; CDelete 0 DErr; CDelete 1 DOk;
                              CDelete 0 DNotFound; CEnqueue 1; CDeliver 2; CDelete 2 DOk] in
   enq s = [(7, 3, 1)] /\ present s = false /\ log s = [DErr; DOk; DNotFound] /\ retries s = 1%nat /\
-  wget s 2 = WGot.
+  wget s 2 = WGot 0.
+Proof. vm_compute. repeat split. Qed.
+
+Example ex_drop :
+  let s1 := crun 2 ex_cmd true [CDeliver 0; CDelete 0 DErr; CDelete 0 DErr; CDelete 0 DErr] in
+  enq s1 = [] /\ present s1 = true /\ drops s1 = 1%nat /\ retries s1 = 2%nat /\ wget s1 0 = WIdle /\
+  let s2 := fold_left (cstep 2 ex_cmd) [CDeliver 0; CDelete 0 DOk; CEnqueue 0] s1 in
+  enq s2 = [(7, 3, 1)] /\ present s2 = false /\ seen s2 = [0; 0; 0; 0]%nat.
 Proof. vm_compute. repeat split. Qed.
 
 (* ---------- CLI under faults: for ALL answer scripts ---------- *)
